@@ -18,6 +18,9 @@ def norm(line):
     s = re.sub(r'Of\(', '(', s)
     s = re.sub(r'Of(\$|Wrapper|Default|Presized)', r'\1', s)
     s = re.sub(r': K ::', ': string ::', s)
+    s = s.replace('mapOfRI', 'mapRI')
+    # property tags say which check counts the clause, they are not part of the specification
+    s = re.sub(r'\{[A-Z0-9, a-z]+\}\s*', '', s)
     s = re.sub(r'\s+', ' ', s).strip()
     return s
 
@@ -42,13 +45,16 @@ def regions(prog):
     return out
 
 
-def clauses(lines):
-    """(function target, clause text) list, skipping representation macros."""
+def clauses(lines, interface_only=False):
+    """(function target, clause text) list, skipping representation macros.  interface_only (Map / MapOf, whose bucket
+    layouts differ): loop invariants are proof artefacts of each layout and are not compared."""
     res = []
     fn = ''
     for (f, ln, t) in lines:
         body = t[3:].strip()
         if not body or body.startswith('--'):
+            continue
+        if interface_only and body.startswith('loop '):
             continue
         m = re.match(r'^define (\w+?)(Of)?\(', body)
         if m and m.group(1) in REPR_MACROS:
@@ -69,7 +75,7 @@ def twin_obligations(prog, spec):
                         'status': 'sat', 'time': 0, 'solver': 'textdiff', 'where': '', 'kind': 'twin', 'fn': a, 'mode': 'seq',
                         'reason': 'twin region missing', 'model': None, 'probes': {}})
             continue
-        ca, cb = clauses(regs[a]), clauses(regs[b])
+        ca, cb = clauses(regs[a], a == 'Map'), clauses(regs[b], a == 'Map')
         sa = {}
         for fn, t, w in ca:
             sa.setdefault(fn, []).append((t, w))
